@@ -1,17 +1,17 @@
 #!/bin/bash
-# for every harmless refactoring under /tmp/refac_out (Cxx_rN with meta.json): apply in a scratch worktree, run ODAK_REPO=<wt> ./check Cxx,
-# expect exit 0 (no alarm on code where the property holds); result line + JSON under /tmp/refac_out/results; artefacts kept in /verif/seeded/<id>
-mkdir -p /tmp/refac_out/results
-for d in /tmp/refac_out/C??_r?; do
+# for every harmless refactoring under ${REFAC_DIR:-/tmp/refac_out} (Cxx_rN with meta.json): apply in a scratch worktree, run ODAK_REPO=<wt> ./check Cxx,
+# expect exit 0 (no alarm on code where the property holds); result line + JSON under ${REFAC_DIR:-/tmp/refac_out}/results; artefacts kept in /verif/seeded/<id>
+mkdir -p ${REFAC_DIR:-/tmp/refac_out}/results
+for d in ${REFAC_DIR:-/tmp/refac_out}/C??_r?; do
   [ -f $d/meta.json ] && [ -f $d/patch.diff ] || continue
   name=$(basename $d); prop=${name%%_*}
-  [ -f /tmp/refac_out/results/$name.txt ] && continue
+  [ -f ${REFAC_DIR:-/tmp/refac_out}/results/$name.txt ] && continue
   wt=/tmp/refaccheck_$$
   git -C /repo worktree add --detach $wt HEAD -f >/dev/null 2>&1
-  if git -C $wt apply $d/patch.diff 2>/tmp/refac_out/results/$name.err; then
+  if git -C $wt apply $d/patch.diff 2>${REFAC_DIR:-/tmp/refac_out}/results/$name.err; then
     out=$(cd /verif && ODAK_REPO=$wt ./check $prop 2>&1); rc=$?
-    echo "$out" > /tmp/refac_out/results/$name.log
-    echo "$name exit=$rc $(echo "$out" | grep -c '^VIOLATION') violations | $(echo "$out" | grep 'OBLIGATION FAILED' | head -3 | cut -c1-160 | tr '\n' ' ')" | tee /tmp/refac_out/results/$name.txt
+    echo "$out" > ${REFAC_DIR:-/tmp/refac_out}/results/$name.log
+    echo "$name exit=$rc $(echo "$out" | grep -c '^VIOLATION') violations | $(echo "$out" | grep 'OBLIGATION FAILED' | head -3 | cut -c1-160 | tr '\n' ' ')" | tee ${REFAC_DIR:-/tmp/refac_out}/results/$name.txt
     mkdir -p /verif/seeded/$name && cp $d/patch.diff /verif/seeded/$name/ && [ -f $d/equiv.py ] && cp $d/equiv.py /verif/seeded/$name/
     /venv/bin/python - "$d/meta.json" "/verif/seeded/$name/meta.json" "$rc" "$prop" <<'PY'
 import json, sys
@@ -20,7 +20,7 @@ m['what_was_run'] = 'tools/refaccheck.sh: patch applied in a scratch worktree, O
 json.dump(m, open(sys.argv[2], 'w'), indent=1)
 PY
   else
-    echo "$name patch-does-not-apply" | tee /tmp/refac_out/results/$name.txt
+    echo "$name patch-does-not-apply" | tee ${REFAC_DIR:-/tmp/refac_out}/results/$name.txt
   fi
   git -C /repo worktree remove --force $wt >/dev/null 2>&1
 done
